@@ -127,6 +127,9 @@ let rec gx (x : sx) : g =
   | L [A "Pratt"; _; a; L ops] -> Pratt (gx a, List.map opx ops)
   | L [A "GroupArr"; L l] -> GroupArr (List.map gx l)
   | L [A "NestedIn"; a] -> NestedIn (gx a)
+  | L [A "NestedVia"; a] -> IgnoreThen (OrNot (Select (PFalse, FId)), NestedIn (gx a))
+      (* a.nested_in(never.or(group)): the derived form - what the rejected first alternative of b left pending stays pending
+         at b's start, and nothing is rewound when the nested parse fails (the choice is inside b) *)
   | L [A "ExtWrap"; a] -> ExtWrap (gx a)
   | L [A "Skip"; n] -> Skip (natx n)
   | L [A "Padded"; ws; a] -> Padded (toks ws, gx a)
